@@ -164,6 +164,37 @@ func TestC04Sequences(t *testing.T) {
 		h.Exec(idx, p, nil, after)
 		run.Case(fmt.Sprintf("several-once self%v janitor%v a%v/%v f%v third%v", self, janitor, a1, a2, f2, third), true)
 	}
+	// wide registries: more handlers of one type than any small internal capacity; once handlers at
+	// the far end of the list (and everywhere): each fires once and none is counted afterwards
+	for wi, n := range []int{64, 65, 70, 100, 129, 260} {
+		for _, shape := range []string{"all-once", "regular-then-once", "mixed"} {
+			idx++
+			if !run.Mine(idx) {
+				continue
+			}
+			p := &prog.Program{Types: []int{(idx + wi) % len(h.Drivers)}}
+			for j := 0; j < n; j++ {
+				reg := &prog.Reg{Class: j % 12}
+				switch shape {
+				case "all-once":
+					reg.Once = true
+				case "regular-then-once":
+					reg.Once = j == n-1
+				default:
+					reg.Once, reg.Async, reg.Ctx = j%2 == 1, j%5 == 0, j%7 == 0
+					if reg.Ctx {
+						reg.Class = j % 6
+					}
+				}
+				p.Ops = append(p.Ops, prog.Op{K: prog.Sub, T: 0, Reg: reg})
+			}
+			for k := 0; k < 2; k++ {
+				p.Ops = append(p.Ops, prog.Op{K: prog.Pub, T: 0, UseCtx: k == 1}, prog.Op{K: prog.Wait}, prog.Op{K: prog.Count, T: 0}, prog.Op{K: prog.Has, T: 0})
+			}
+			h.Exec(idx, p, nil, after)
+			run.Case(fmt.Sprintf("wide n%d %s", n, shape), true)
+		}
+	}
 	run.Count("enumerated_sequences_x_variants", int64(idx))
 	run.Exhaustive(true)
 }
